@@ -2,6 +2,8 @@ import Amgcl.Driver.Util
 import Amgcl.Model.CApi
 import Amgcl.Model.CApiParams
 import Amgcl.Model.Kernels
+import Amgcl.Model.CApiTable
+import Amgcl.Generated.CApiTableData
 /-! handlers for the model-expressible part of C20 (lib/amgcl.cpp): the iterator-range view and the handle
 life cycle.
 
@@ -24,6 +26,24 @@ life cycle.
 namespace Amgcl.Driver.CApi
 open Amgcl Amgcl.Driver Amgcl.CApi
 
+/-! All three ops are answered FROM THE TABLE that `tools/capi_extract.py` regenerates from lib/amgcl.cpp on every
+run (`Amgcl.Generated.capiTable`): `capi_view` reads the caller's arrays through the tuple extracted from
+`amgcl_precond_create[_f]` (`TupleSpec.view`: transform amounts of `ptr` and `col` and range ends as extracted),
+`capi_script` runs the handle state machine on the footprints extracted from the function bodies (`Table.call`),
+`capi_params` takes the value type of `seti / setf / sets` from the extracted parameter lists and requires their
+bodies to be `put(name, value)`.  So the correspondence run ties the TRANSLATOR to the code; the hand models
+(`mkView`, the declared calls) are tied to the table by the theorems of `Properties/C20b.lean`. -/
+
+def tbl : Table := Amgcl.Generated.capiTable
+
+/-- the tuple of `amgcl_<family>_<verb>[_f]` as extracted -/
+def tupleOf (family : Kind) (verb : String) (b : Int) : Option TupleSpec :=
+  match tbl.entries.find? (fun e => e.family == family && e.verb == verb && e.fortran == (b == 1)) with
+  | some e => (tbl.resolve e).tuple?
+  | none => none
+
+def suffixOf (b : Int) : String := if b == 1 then "_f" else ""
+
 def pBase : P Int := do
   let b ← pNat
   if b = 0 then pure 0 else if b = 1 then pure 1 else fail
@@ -35,22 +55,28 @@ def pPrm : P (Option Nat) := do
   | some n => pure (some n)
   | none => fail
 
+/-- one step of a script = one call of an entry point by NAME; its effect on the handle state machine is the
+footprint extracted from the body of that entry point (`Table.call`); a name the table does not have, or a
+footprint that is not a call of the machine, is `bad-input` -/
 def pCall : P Call := do
   let t ← tok
-  match t with
-  | "pcreate" => pure .paramsCreate
-  | "pset" => do let h ← pNat; pure (.use .params h)
-  | "pdestroy" => do let h ← pNat; pure (.destroy .params h)
-  | "acreate" => do let _ ← pBase; let p ← pPrm; pure (.objCreate false p)
-  | "aapply" => do let h ← pNat; pure (.use .precond h)
-  | "areport" => do let h ← pNat; pure (.use .precond h)
-  | "adestroy" => do let h ← pNat; pure (.destroy .precond h)
-  | "screate" => do let _ ← pBase; let p ← pPrm; pure (.objCreate true p)
-  | "ssolve" => do let h ← pNat; pure (.use .solver h)
-  | "smtx" => do let _ ← pBase; let h ← pNat; pure (.use .solver h)
-  | "sreport" => do let h ← pNat; pure (.use .solver h)
-  | "sdestroy" => do let h ← pNat; pure (.destroy .solver h)
-  | _ => fail
+  let api : ApiCall ← (match t with
+    | "pcreate" => pure ⟨"amgcl_params_create", []⟩
+    | "pset" => do let h ← pNat; pure ⟨"amgcl_params_seti", [some h]⟩
+    | "pdestroy" => do let h ← pNat; pure ⟨"amgcl_params_destroy", [some h]⟩
+    | "acreate" => do let b ← pBase; let p ← pPrm; pure ⟨"amgcl_precond_create" ++ suffixOf b, [p]⟩
+    | "aapply" => do let h ← pNat; pure ⟨"amgcl_precond_apply", [some h]⟩
+    | "areport" => do let h ← pNat; pure ⟨"amgcl_precond_report", [some h]⟩
+    | "adestroy" => do let h ← pNat; pure ⟨"amgcl_precond_destroy", [some h]⟩
+    | "screate" => do let b ← pBase; let p ← pPrm; pure ⟨"amgcl_solver_create" ++ suffixOf b, [p]⟩
+    | "ssolve" => do let h ← pNat; pure ⟨"amgcl_solver_solve", [some h]⟩
+    | "smtx" => do let b ← pBase; let h ← pNat; pure ⟨"amgcl_solver_solve_mtx" ++ suffixOf b, [some h]⟩
+    | "sreport" => do let h ← pNat; pure ⟨"amgcl_solver_report", [some h]⟩
+    | "sdestroy" => do let h ← pNat; pure ⟨"amgcl_solver_destroy", [some h]⟩
+    | _ => fail : P ApiCall)
+  match tbl.call api with
+  | some c => pure c
+  | none => fail
 
 /-- calls until the end of the line (`fuel` = number of tokens) -/
 def pCalls : Nat → P (List Call)
@@ -118,15 +144,35 @@ def fileOK (es : List (List String × String)) : Bool :=
   let idx := (List.range es.length).zip es
   idx.all (fun (i, e) => idx.all (fun (j, f) => i == j || !isPrefix e.1 f.1))
 
+/-- type tag of the value parameter of the typed setter `amgcl_params_<verb>` AS EXTRACTED; `none` unless the
+body of that entry point is `static_cast<Params*>(prm)->put(name, value)` -/
+def setterTag (verb : String) : Option String :=
+  match tbl.find? ("amgcl_params_" ++ verb) with
+  | some e =>
+    match e.body.pwrite (.inl ⟨[], ""⟩), e.types with
+    | some (.set _ _), [.handle, .cstr, .int] => some "i"
+    | some (.set _ _), [.handle, .cstr, .float] => some "f"
+    | some (.set _ _), [.handle, .cstr, .cstr] => some "s"
+    | _, _ => none
+  | none => none
+
+def pSetter (verb : String) : P PCall := do
+  match setterTag verb with
+  | none => fail
+  | some tag => do let h ← pNat; let p ← pPath; let v ← pValue tag; pure (.write h (.set p v))
+
 def pPCall : P PCall := do
   let t ← tok
   match t with
-  | "new" => pure .create
-  | "del" => do let h ← pNat; pure (.destroy h)
-  | "seti" => do let h ← pNat; let p ← pPath; let v ← pValue "i"; pure (.write h (.set p v))
-  | "setf" => do let h ← pNat; let p ← pPath; let v ← pValue "f"; pure (.write h (.set p v))
-  | "sets" => do let h ← pNat; let p ← pPath; let v ← pValue "s"; pure (.write h (.set p v))
+  | "new" => if tbl.call ⟨"amgcl_params_create", []⟩ == some .paramsCreate then pure .create else fail
+  | "del" => do
+      let h ← pNat
+      if tbl.call ⟨"amgcl_params_destroy", [some h]⟩ == some (.destroy .params h) then pure (.destroy h) else fail
+  | "seti" => pSetter "seti"
+  | "setf" => pSetter "setf"
+  | "sets" => pSetter "sets"
   | "json" => do
+      if (tbl.pwrite "amgcl_params_read_json" (.inr [])).isNone then fail   -- body as extracted is `read_json(fname, *prm)`
       let h ← pNat
       let k ← pNat
       if k > 64 then fail
@@ -155,7 +201,7 @@ def handle (op : String) (args : List String) : Option String :=
         let ptr ← pIntVec; let col ← pIntVec; let val ← pVec
         pure (b, n, ptr, col, val)) args
       fun (b, n, ptr, col, val) =>
-        match (mkView b n ptr col val).bind View.toRows with
+        match (tupleOf .precond "create" b).bind (fun A => (A.view n ptr col val).bind View.toRows) with
         | none => badInput
         | some rows =>
           match rowsToCRS n rows with
